@@ -1,6 +1,7 @@
 import Pyrtma.Proofs.ManagerCount
 import Pyrtma.Proofs.ManagerOrder
 import Pyrtma.Spec.Manager
+import Pyrtma.Proofs.ManagerSimDrv
 /-!
 # C05 — per-connection order, whole frames, sequence numbers
 
@@ -16,6 +17,14 @@ arrive in the order sent and any two receivers see the frames they both get in t
 
 Decided on the implementation (not a theorem): that every captured byte stream parses as whole frames (the model's events
 *are* whole frames; the split into two `sendall` calls is below its granularity).
+
+For every history (the refinement link, `Proofs/ManagerSim*.lean`, `Proofs/ManagerSimMult.lean`, `Proofs/ManagerSpecOrd.lean`):
+`spec_order_clauses_pass_on_model` — run the model on any well-formed history whose frames carry their serial numbers in
+processing order (`IncRounds`), give the history-based Spec (`Spec.runSpec`) the events the model itself wrote, round by
+round: the Spec's verdict contains **no C05 entry** — frames are read in the order the script delivers them, no malformed
+frame is written, the `msg_count` values on every connection are 1, 2, 3, …, the frames of one sender reach every receiver
+in order, and any two receivers see their common frames in the same order (every receiver of a frame gets the same number
+of copies of it: one — two for a frame whose type is the ALL sentinel —, `run_mult`).
 -/
 namespace Pyrtma.C05
 open Pyrtma.Mgr
@@ -173,6 +182,24 @@ theorem spec_fifo_clause_passes_on_model (cfg : Cfg) (rs : List Round) (hi : Inc
   rw [he]
   exact adjacent_of_pairwise _ ((fifo_per_receiver cfg rs hi u).filter _)
 
+/-- **Every receiver of an input frame gets the same number of copies of it** (one; two for a frame whose type is the ALL
+    sentinel, to which a subscriber of everything is listed twice). -/
+theorem same_number_of_copies (cfg : Cfg) (ok : CfgOK cfg) (hfuel : cfg.fuel = 0) (hperm : OrdPerm cfg) (rs : List Round)
+    (hi : IncRounds 0 rs) (k : Nat) :
+    ∃ c, ∀ u, (dataKs (run cfg rs).out u).count k = 0 ∨ (dataKs (run cfg rs).out u).count k = c :=
+  run_mult ok hfuel hperm rs hi k
+
+/-- **The Spec's C05 clauses hold on every run of the model** (the whole of property C05 as the Spec decides it).  For every
+configuration meeting the side conditions (`CfgOK`, automatic fuel, `OrdPerm`, CLIENT_CLOSED is not the ALL_MESSAGE_TYPES
+sentinel) and every history whose frames are read from connections (`RoundsWF`) and carry their serial numbers in
+processing order (`IncRounds`: the serial number is the label by which the Spec recognises the copies of a frame; every
+generated history numbers its frames so), the verdict `Spec.runSpec` computes from the history and the model's own events
+has no C05 entry. -/
+theorem spec_order_clauses_pass_on_model (cfg : Cfg) (ok : CfgOK cfg) (hfuel : cfg.fuel = 0) (hperm : OrdPerm cfg)
+    (hmt : cfg.mtClosed ≠ cfg.allTypes) (rs : List Round) (hwf : RoundsWF rs) (hi : IncRounds 0 rs) :
+    (Spec.runSpec cfg rs (Pyrtma.Drv.Manager.modelRun cfg rs).1 none).errs.filter (·.1 == "C05") = [] :=
+  spec_passes_on_model ok hfuel hperm hmt rs hwf "C05" (by simp [proven]) (fun _ => hi)
+
 /-! ### Non-vacuity -/
 /-- two subscribers of type 5000, two frames published: both get frame 3 before frame 4 -/
 def exRounds : List Round :=
@@ -182,6 +209,21 @@ def exRounds : List Round :=
    { reads := [{ uid := 1, h := { k := 3, mtype := 5000 } }, { uid := 2, h := { k := 4, mtype := 5000 } }], writable := [1, 2] }]
 example : IncRounds 0 exRounds := by simp [IncRounds, IncFrom, lastBound, exRounds]
 example : dataKs (run {} exRounds).out 1 = [3, 4] ∧ dataKs (run {} exRounds).out 2 = [3, 4] := by decide
+example : RoundsWF exRounds := by
+  intro r hr rd hrd
+  simp only [exRounds, List.mem_cons, List.not_mem_nil, or_false] at hr
+  rcases hr with rfl | rfl | rfl | rfl | rfl <;> simp at hrd <;> (try (rcases hrd with rfl | rfl)) <;> (try subst hrd) <;> decide
+example : (Spec.runSpec {} exRounds (Pyrtma.Drv.Manager.modelRun {} exRounds).1 none).errs = [] := by decide +kernel
+
+/-- a frame whose type is the ALL sentinel is written twice to a subscriber of everything — to each of them -/
+def exRoundsAll : List Round :=
+  [{ accept := true }, { accept := true }, { accept := true },
+   { reads := [{ uid := 1, h := { k := 1, mtype := 15, nbytes := 4 }, avail := 4, pay := [255, 255, 255, 127] }], writable := [1, 2, 3] },
+   { reads := [{ uid := 2, h := { k := 2, mtype := 15, nbytes := 4 }, avail := 4, pay := [255, 255, 255, 127] }], writable := [1, 2, 3] },
+   { reads := [{ uid := 3, h := { k := 3, mtype := 2147483647 } }, { uid := 3, h := { k := 4, mtype := 5000 } }], writable := [1, 2, 3] }]
+example : IncRounds 0 exRoundsAll := by simp [IncRounds, IncFrom, lastBound, exRoundsAll]
+example : dataKs (run {} exRoundsAll).out 1 = [3, 3, 4] ∧ dataKs (run {} exRoundsAll).out 2 = [3, 3, 4] := by decide +kernel
+example : (Spec.runSpec {} exRoundsAll (Pyrtma.Drv.Manager.modelRun {} exRoundsAll).1 none).errs = [] := by decide +kernel
 
 def exState : State :=
   { mods := [{ uid := 0, connected := true }, { uid := 1, modId := 10, connected := true, subs := [5000], msgCount := 4 }],
